@@ -108,7 +108,7 @@ def gen_sm3(rng, tier):
 
 
 def gen_tf(rng, tier):
-  cfg = tf_gen.gen_config(rng)
+  cfg = tf_gen.gen_config(rng, variants=True)
   if rng.random() < 0.15:
     cfg['graft']['grafting_type'] = 'adafactor'
     cfg['graft']['second_moment_decay'] = 0.9
